@@ -39,7 +39,7 @@ static const cfg_t cfgs[] = {
     { "WRR rendezvous U1+U0+X", 1, 1, 3,
       { ACT(A_U1, W, 1, 0), ACT(A_U0, R, 1, 0), ACT(A_EXT, R, 1, 0) } },
     /* ---- thorough ---- */
-    { "RWW U0+U1+X", 0, 0, 3,
+    { "RWW U0+U1+X", 1, 0, 3,
       { ACT(A_U0, R, 1, 0), ACT(A_U1, W, 1, 0), ACT(A_EXT, W, 1, 0) } },
     { "WRR U1+U0+X", 0, 0, 3,
       { ACT(A_U1, W, 1, 0), ACT(A_U0, R, 1, 0), ACT(A_EXT, R, 1, 0) } },
